@@ -103,10 +103,23 @@ def worker_root():
     return wr
 
 
-def fresh_disk():
-    """Wipe and recreate the worker's scratch disk; returns its root."""
-    wr = worker_root()
-    shutil.rmtree(wr, ignore_errors=True)
+INSTALL_PLACES = ["", "", "", ".saved", " (copy)", ".sav", ".omn.d", "-v4.7"]
+
+
+def draw_place(t):
+    """where the tools are installed for this run: the directory name may hold dots, blanks and the extensions the tools
+    use for their own files (cracking.saved/, backup.sav/)"""
+    return t.choice(INSTALL_PLACES)
+
+
+def fresh_disk(place=""):
+    """Wipe and recreate the worker's scratch disk; returns its root.  `place` is appended to the directory name."""
+    base = os.path.join(_state["root"], "w%d" % os.getpid())
+    for suffix in set(INSTALL_PLACES) | {place}:
+        shutil.rmtree(base + suffix, ignore_errors=True)
+    wr = base + place
+    _state["wroot"] = wr
+    _state["wpid"] = os.getpid()
     os.makedirs(os.path.join(wr, "Rules"))
     return wr
 
